@@ -201,6 +201,21 @@ theorem selection_per_connection (w : Switches) (q : Quirks) (st : State) (now c
     ((exec w q st now c r).1.conns c').queue = (st.conns c').queue :=
   (exec_tr w q st now c r).2 c' h
 
+/-- … hence over whole histories: whatever the other connections do, in any interleaving and through any path, a
+    connection that sends nothing keeps its selection (and its open transaction). -/
+theorem selection_untouched_by_others (w : Switches) (q : Quirks) (c' : Nat) (evs : List Dbs.Ev) :
+    ∀ (st : State), (∀ e ∈ evs, e.conn ≠ c') →
+      ((run w q st evs).conns c').db = (st.conns c').db ∧ ((run w q st evs).conns c').inMulti = (st.conns c').inMulti ∧
+      ((run w q st evs).conns c').queue = (st.conns c').queue := by
+  induction evs with
+  | nil => intro st _; exact ⟨rfl, rfl, rfl⟩
+  | cons e rest ih =>
+    intro st h
+    have h1 := (exec_tr w q st e.now e.conn e.req).2 c' (fun x => h e (by simp) x.symm)
+    have h2 := ih (exec w q st e.now e.conn e.req).1 (fun x hx => h x (by simp [hx]))
+    simp only [run, List.foldl_cons] at h2 ⊢
+    exact ⟨h2.1.trans h1.1, h2.2.1.trans h1.2.1, h2.2.2.trans h1.2.2⟩
+
 /-! ### 4. FLUSHDB and FLUSHALL -/
 
 /-- FLUSHDB sent by a connection with database `i` selected empties database `i` and nothing else. -/
@@ -361,6 +376,8 @@ theorem script_flushdb_isolation_fails :
 
 /-! ### Non-vacuity: the hypotheses are satisfiable, and the served path is really exercised -/
 
+example : ({} : State).wakes = [] ∧ (({} : State).conns 1).blocked = false ∧ (({} : State).conns 1).inMulti = false ∧
+    ({} : State).store.length = 16 := by decide
 example : Clean false (.plain [wGET, [107]] none) := by simp only [Clean]; decide
 example : Clean false (.script true [[wSET, [107], [118]], [wGET, [107]]]) := by
   simp only [Clean, true_and]; intro x hx; simp at hx; rcases hx with h | h <;> subst h <;> decide
